@@ -2,11 +2,12 @@
    Only property-level statements; each is closed by [exact <lemma>].
    Model: Model/Chunked.v (copy_chunked_async of src/util.rs, over the scripted readers/writers of
    Model/IOSched.v).  Spec: Spec/ChunkDecode.v (RFC 7230 section 4.1 decoder, written independently).
-   [cap] is the encoder's read-buffer size; the code uses piece_max = 65528 (buf[6..65534]); every
+   [cap] is the encoder's read-buffer size; the code uses piece_max = the read window of src/util.rs, re-read on every run (65528 = buf[6..65534] at the pinned commit); every
    theorem holds for every cap with 1 <= cap < 65536 (a 4-digit size line), c07_piece_max_ok
    instantiates it. *)
 From SV Require Import Base.Bytes Base.BytesP Model.IOSched Spec.ChunkDecode Model.Chunked
                        Proofs.IOSchedP Proofs.ChunkedP.
+From SV Require Import Generated.SourceParams Tie.ChunkTie.
 
 (* C07.1  The size line.  For EVERY data length 1 <= n <= 65535 (all lengths a read of at most
    65528 bytes can have, and then some; finite domain, checked exhaustively by computation inside
@@ -17,7 +18,7 @@ Theorem c07_size_line_correct :
     exists c t, size_line n = c :: t /\ c <> 48.
 Proof. exact size_line_correct. Qed.
 
-Theorem c07_piece_max_ok : cap_ok piece_max /\ piece_max_N = 65528.
+Theorem c07_piece_max_ok : cap_ok piece_max /\ piece_max_N = src_chunk_read_hi - src_chunk_read_lo.
 Proof. exact (conj piece_max_ok eq_refl). Qed.
 
 (* C07.2  For ALL lists of pieces with lengths in 1..cap the independent decoder recovers exactly the
@@ -114,6 +115,29 @@ Example c07_nonvacuous :
      = (CReaderErr, [49;48;13;10] ++ firstn 16 data ++ [13;10]).
 Proof. vm_compute. repeat split; reflexivity. Qed.
 
+(* C07.src  The encoder's buffer layout as re-read from src/util.rs ON THIS RUN (props/srcparams.py ->
+   Generated/SourceParams.v): four hex-digit cells, most significant first, then CR LF, the read window
+   right after them with room for the closing CR LF, every window length below 16^4, the terminating
+   chunk literal.  The model's piece_max IS this window (Model/Chunked.v), so c07_piece_max_ok and every
+   theorem instantiated with piece_max is re-checked against the code's current constants. *)
+Theorem c07_source_layout :
+  src_chunk_hex_stores = hex_stores_of 4 /\
+  src_chunk_crlf_stores = [(4, 13); (5, 10)] /\
+  src_chunk_read_lo = 6 /\
+  src_chunk_read_hi + 2 <= src_chunk_buf_len /\
+  src_chunk_read_lo < src_chunk_read_hi /\
+  piece_max_N = src_chunk_read_hi - src_chunk_read_lo /\
+  piece_max_N < 16 ^ 4 /\
+  src_chunk_terminator = terminator.
+Proof. exact chunk_layout. Qed.
+
+Theorem c07_hex4_is_the_source_stores :
+  forall len, hex4 len = map (fun st => hex_digit (N.land (N.shiftr len (snd st)) 15)) src_chunk_hex_stores.
+Proof. exact hex4_is_the_stores. Qed.
+
+Theorem c07_translation_complete : src_translation_problems = 0%nat.
+Proof. exact translation_complete. Qed.
+
 Print Assumptions c07_size_line_correct.
 Print Assumptions c07_piece_max_ok.
 Print Assumptions c07_decode_encode.
@@ -126,3 +150,6 @@ Print Assumptions c07_short_writes_invisible.
 Print Assumptions c07_failed_write_is_prefix.
 Print Assumptions c07_decoder_fuel_independent.
 Print Assumptions c07_oracle_sound.
+Print Assumptions c07_source_layout.
+Print Assumptions c07_hex4_is_the_source_stores.
+Print Assumptions c07_translation_complete.
